@@ -533,6 +533,14 @@ def _run_jobs(jobs, nproc):
 
 
 def _run_task(arg):
+    import warnings
+
+    try:
+        from hypothesis.errors import HypothesisWarning
+        warnings.filterwarnings('ignore', category=HypothesisWarning)
+    except ImportError:
+        pass
+
     name, task = arg
     check = _CHECKS[name]
     st = Stats()
